@@ -40,10 +40,20 @@ def sweep_pick(tier, seed):
         yield dict(data_size=d, batch_size=b, num_batch_size_buckets=k)
 
 
-def make_ds(n, with_pre=True):
+def make_ds(n, with_pre=True, sliced=False):
   raw = {'x': np.arange(n, dtype=np.int32) + 1,
          'y': (np.arange(n * 6, dtype=np.float32).reshape(n, 2, 3) + 1)}
   keep = {k: v.copy() for k, v in raw.items()}
+  if sliced:
+    # the same dataset obtained as a slice of a larger one that has already been measured and iterated
+    big = {k: np.concatenate([np.zeros_like(v[:2]) - 5, v, np.zeros_like(v[:3]) - 7]) for k, v in raw.items()}
+    pre = (cds.BatchPreprocessor([lambda e: {**e, 'z': e['x'] * 2 + 7}, lambda e: {**e, 'u': e['z'] - 1}]) if with_pre
+           else cds.NoOpBatchPreprocessor)
+    parent = cds.ClientDataset(big, pre)
+    len(parent)
+    list(parent.batch(batch_size=2))
+    list(parent.padded_batch(batch_size=3))
+    return parent[2:2 + n], keep, with_pre
   if with_pre:
     # a chain of per-example preprocessors that does NOT map 0 to 0 (padding is added after preprocessing: padded rows are 0)
     pre = cds.BatchPreprocessor([lambda e: {**e, 'z': e['x'] * 2 + 7}, lambda e: {**e, 'u': e['z'] - 1}])
@@ -64,7 +74,7 @@ def check_batch(inp):
   n, b, drop = inp['N'], inp['batch_size'], bool(inp['drop_remainder'])
   if n < 0 or b < 1:
     return None
-  ds, keep, wp = make_ds(n, inp.get('pre', True))
+  ds, keep, wp = make_ds(n, inp.get('pre', True), inp.get('sliced', False))
   view = ds.batch(batch_size=b, drop_remainder=drop)
   if inp.get('peek'):
     for _ in zip(range(inp['peek']), view):
@@ -111,13 +121,15 @@ def sweep_batch(tier, seed):
   for n, b in ((7, 3), (5, 1), (9, 4)):
     for peek in (1, 2):
       yield dict(N=n, batch_size=b, drop_remainder=False, pre=True, peek=peek)
+  for n, b in ((3, 2), (0, 2), (5, 5), (4, 3)):
+    yield dict(N=n, batch_size=b, drop_remainder=False, pre=True, sliced=True)
 
 
 def check_padded(inp):
   n, b, k = inp['N'], inp['batch_size'], inp['num_batch_size_buckets']
   if n < 0 or b < 1 or k < 1:
     return None
-  ds, keep, wp = make_ds(n, inp.get('pre', True))
+  ds, keep, wp = make_ds(n, inp.get('pre', True), inp.get('sliced', False))
   view = ds.padded_batch(batch_size=b, num_batch_size_buckets=k)
   if inp.get('peek'):
     # a partial pass first (a peek at the first batch, a consumer that stops early): later passes are still complete
@@ -180,6 +192,8 @@ def sweep_padded(tier, seed):
   for n, b in ((7, 3), (5, 1), (9, 4)):
     for peek in (1, 2):
       yield dict(N=n, batch_size=b, num_batch_size_buckets=2, pre=True, peek=peek)
+  for n, b in ((3, 2), (0, 2), (5, 5), (4, 3)):
+    yield dict(N=n, batch_size=b, num_batch_size_buckets=2, pre=True, sliced=True)
 
 
 def check_helpers(inp):
